@@ -146,6 +146,18 @@ def shapes(tier, seed):
     src.append(c17.SplitShape('preprocessor-symbols-containing-one-another', prog={'main.asm': prog}, files=files,
                               cfgargs=dict(origin=Sym('o0', 0, 0x1000), consts={'v2': c02.SYMS['v2'], 'o0': (0, 0x1000)}),
                               props=['C17'], binary=True, start=Sym('o0', 0, 0x1000), width=48, expect=['ok']))
+    # a listing over several files (two includes and a predefined data block): the order of its sections is fixed
+    lst = [s for s in c16s if s.sid.startswith('listing:hand:org-then-include') or s.sid.startswith('listing:hand:include')]
+    for s0 in lst[:1]:
+        files = {'main.asm': [('data', '.byte', [C(1)]), ('include', 'inc.asm'), ('include', 'inc2.asm'), ('label', 'b'),
+                              ('data', '.2byte', [('lbl', 'b'), ('lbl', 'i')])],
+                 'inc.asm': [('label', 'i'), ('instr', 'ld8', ('lsb', V('v2'))), ('instr', 'nop', None)],
+                 'inc2.asm': [('data', '.byte', [C(7), C(8)]), ('include', 'inc3.asm')],
+                 'inc3.asm': [('instr', 'nop', None)]}
+        for fmt in ('listing', 'hex'):
+            src.append(c16.PrettyShape(f'{fmt}:several-files', prog=files,
+                                       cfgargs=dict(origin=0x100, consts={'v2': c02.SYMS['v2']}, data_blocks=[('blk', 0x118, 2, 0x5A)]),
+                                       props=['C16'], binary=True, start=0x100, pretty=fmt, width=48))
     # mnemonics that contain one another (`mov.b`, `mov`, `b`): which one a statement is must not depend on any order
     from .instr import isa, code
     # (`b.mov` next to `b` and `mov` is left out: with several statements allowed on one line it reads as `b.` `mov`)
